@@ -282,6 +282,31 @@ def r2_typestate(ctx, summ):
             ctx.ob("C19.R2", CCH, qual, g.nodes[p].ast, "when the method completes normally no lock is held", Ls == [0] or Ls == [], detail={"L": Ls},
                    stmt=f"{mname}: L==0 at normal end after " + (unparse(g.nodes[p].ast)[:60] if g.nodes[p].ast is not None else "?"))
         ctx.floor("C19.R2", f"normal exits of {mname}", n_ret, 1)
+        # a release is only ever applied to a lock the thread holds: releasing an un-held lock resets the shared counter under another thread's feet
+        for nd in g.nodes:
+            if nd.id not in reach or nd.ast is None:
+                continue
+            a = node_ast_for_effects(nd) if nd.kind != "test" else nd.ast
+            hs = [h for h in _helper_calls(a)] if a is not None else []
+            if not any(h.startswith("_release") or h.startswith("_switch") for h in hs):
+                continue
+            for L0, _ in ts.states_at(nd.id):
+                Lc = L0
+                for h in hs:
+                    if h in ("_has_read_lock", "_has_write_lock"):
+                        continue
+                    if h == "_release_write_lock" or h == "_switch_write_to_read_lock":
+                        okh = Lc == -1
+                    elif h == "_release_read_lock":
+                        okh = Lc > 0
+                    else:
+                        okh = True
+                    if not okh:
+                        ctx.ob("C19.R2", CCH, qual, nd.ast, f"{h} is applied only when the thread holds that lock", False, detail={"L": Lc}, stmt=f"{mname}: {h} while holding")
+                    if _helper_raises(h, Lc):
+                        break
+                    Lc = _apply(summ[h]["L"], Lc)
+        ctx.ob("C19.R2", CCH, qual, fn, "every release / switch helper call was examined in all reachable lock states", True, stmt=f"{mname}: releases examined")
         # R5 inner-cache operations
         for nd in g.nodes:
             if nd.id not in reach or nd.ast is None:
@@ -483,6 +508,8 @@ def r8_slot_index(ctx):
 
 
 CONTROLS = [
+    ("write lock released twice", CCH, M.replace_stmt("ConcurrentCacher.rmv", lambda st: isinstance(st, ast.Try),
+        "try:\n    if key in self:\n        self._acquire_write_lock(key)\n        lock = 'write'\n        self._cache.rmv(key)\n        self._release_write_lock(key)\nfinally:\n    if lock == 'write': self._release_write_lock(key)"), "C19.R2"),
     ("slot from the salted builtin hash", CCH, M.replace_expr("ConcurrentCacher._index", "int.from_bytes(blake2b(str(key).encode('utf-8'), digest_size=self._digest_size).digest(), 'big')",
                                                             "hash(str(key)) % 2 ** (8 * self._digest_size)"), "C19.R8"),
     ("no release in handler", CCH, M.replace_stmt("ConcurrentCacher.get_set", M.text_has("if self._has_read_lock(key)"), "pass"), "C19.R2"),
